@@ -2,7 +2,7 @@ from props import KERNEL, HARNESS, TRANSLATOR, CORR
 
 CONFIG = {
     "props_file": "props/C05.v",
-    "coq_targets": ["props/C05.vo", "model/ProtoPrintCorr.vo"],
+    "coq_targets": ["props/C05.vo", "model/ProtoPrintCorr.vo", "model/ProtoPrintFileCorr.vo"],
     "runner": "run_tool",
     "gens": ["gen_tool"],
     "level": "proof",
@@ -21,12 +21,13 @@ CONFIG = {
     "mult_search": 3,
     "refuted": ["C05_scope_shadow_previous_refuted, C05_scope_cross_package_previous_refuted (the printer before fix bb3e43d)",
                 "C05_scope_snapshot_refuted (snapshot code, repaired by fix d554404)"],
-    "partial": ["whole-descriptor statement parse(print D) ~ D: literal layer and scope layer (C05_scope_full) proved for all inputs, layout/character layer covered by the round-trip oracle only",
+    "partial": ["C05 as stated (parse(print D) ~ D and print again = same text, for whole descriptors) has NO theorem yet: the theorems are about three helper layers (one literal, one type reference, one option value). A file-layer model exists (model/ProtoPrintFile.v: descriptor -> element order / option order / Simplify / json_name -> token list; model/ProtoParseFile.v: token parser for the emitted subset + descriptor building) and is tied to PrintFile + the protocompile lexer/parser by the file correspondence stream, but its round-trip theorem is not proved in this tree; characters between tokens (indentation, blank lines, inline vs block option forms) and trailing comments are oracle-only",
+                "scope theorem: message-field / rpc type references against a symbol table of messages and enums only (services, extension names in option names, extendees are printed through the same function but are outside the theorem); parse_raw is the printer's own inverse on the emitted token subset, not protocompile's message-literal grammar; floats in option values, strconv.Quote of json_name and the unescaped file-level string options are not modelled",
                 "C05_scope_same_package_previous_partial / C05_scope_other_package_previous_partial: the lemma for the previous printer under explicit no-capture hypotheses (kept as the route to C05_scope_full)"],
 }
 
 MANIFEST = {
     "text": "Theorems over a Gallina model of the printer's literal layer and scope shortening: for all byte strings (incl. invalid UTF-8) the literal written by prototextString is pure ASCII and is read back by the text-format lexer as the same bytes, also in front of arbitrary following text; integers, booleans and dotted identifiers round-trip; for every option value tree the parser of the emitted token subset reads back the tree that was printed and printing it again gives the same tokens (idempotence at token level); the name contextRefName prints for a type reference (shortened, or fully qualified with a leading dot when a nested type or a package would capture it) resolves, from the scope it is printed in, to the type it was written for — for all symbol tables and nestings (the previous printer: proved under no-capture hypotheses, refuted without them by concrete tables). Tied to the code by regenerated escape/arm tables, by evaluating the model printer, the model lexer and the model resolver against prototextString, marshalSingular, contextRefName, the real protocompile lexer and the real protocompile linker, and by the end-to-end oracle PrintFile -> protocompile parse+link -> descriptor comparison (every field, option and extension value, leading comments) -> PrintFile again byte-equal on every .proto of the repository and on the files compiled from generated j5s packages.",
-    "note": "Level: proof for the literal layer and the scope layer (full, all inputs); the layout/character layer is checked by the round-trip oracle only (partial). Known findings: options on map entry value fields are not printed (map:key:id62 degrades to map<string,string>). Fixed in this round: trailing comment of an empty element, empty type name for self-referencing fields, json_name not printed, shortened/cross-package names captured by nested types or packages.",
+    "note": "Level: proof for three helper layers only (literal, type-reference scope, option-value tokens; all inputs); the property as stated (whole descriptors) is covered by the file-layer correspondence (model printer/parser vs PrintFile + protocompile) and the round-trip oracle, not by a theorem (partial). Known findings: options on map entry value fields are not printed (map:key:id62 degrades to map<string,string>). Fixed in this round: trailing comment of an empty element, empty type name for self-referencing fields, json_name not printed, shortened/cross-package names captured by nested types or packages.",
     "technique": "Rocq/Coq proof (UTF-8 decode/encode round trip, escape inverse pairs, radix round trip, scope-resolution lemma by induction on the scope chain) + regenerated escape tables + in-Coq differential correspondence against the real printer, lexer and linker + end-to-end round-trip oracle",
 }
